@@ -115,8 +115,8 @@ func main() {
 			fmt.Println("cannot replay:", err)
 			os.Exit(2)
 		}
-		run.Root = os.TempDir() // do not overwrite evidence / replays of real runs
-		os.MkdirAll(run.Root+"/evidence", 0o755)
+		run.Out = os.TempDir() // do not overwrite evidence / replays of real runs
+		os.MkdirAll(run.Out+"/evidence", 0o755)
 		def.replay(c, body.Case)
 		if run.Violations() > 0 {
 			os.Exit(1)
